@@ -3,6 +3,9 @@
 (* (property C06). Heights propagate along three kinds of observed links      *)
 (*    dh  : a levelled height difference                  (AcordHdiff),       *)
 (*    zs  : a zenith angle with its slope distance        (AcordZderived),    *)
+(*    zd  : a zenith angle with the horizontal distance   (AcordZderived),    *)
+(*    za  : a zenith angle alone, between points whose horizontal positions   *)
+(*          are known                                     (AcordZderived),    *)
 (*    vec : a coordinate difference vector                (AcordVector),      *)
 (* each usable in both directions: from its known end to the unknown one.     *)
 (* The three algorithms run round-robin (Acord2::execute) until nothing new   *)
@@ -43,7 +46,7 @@ Attach == /\ extra = 0
                /\ built' = built \cup {p} /\ obs' = obs \cup {l}
                /\ hist' = Append(hist, [k |-> k, fwd |-> fwd, l |-> l])
                /\ UNCHANGED <<fixed, extra>>
-Code(l) == (IF l.t = "dh" THEN 0 ELSE IF l.t = "zs" THEN 100 ELSE 200) + l.from * 10 + l.to
+Code(l) == (IF l.t = "dh" THEN 0 ELSE IF l.t = "zs" THEN 100 ELSE IF l.t = "vec" THEN 200 ELSE IF l.t = "zd" THEN 300 ELSE 400) + l.from * 10 + l.to
 Extra == /\ built # {} /\ extra < MaxExtra
          /\ \E l \in AllLinks \ obs : /\ l.from \in Known /\ l.to \in Known
                                       /\ ~ \E m \in obs : m.t = l.t /\ m.from = l.to /\ m.to = l.from   \* not the reverse of a link of the same kind
